@@ -361,8 +361,8 @@ public:
     // internal use
     std::pair<PTRef, PTRef> leqToConstantAndTerm(PTRef) const;
 
-    // MB: In pure LA, there are never nested boolean terms
-    vec<PTRef> getNestedBoolRoots(PTRef) const override { return vec<PTRef>(); }
+    // MB: In pure LA, there are never nested boolean terms; with uninterpreted functions there are (Boolean arguments)
+    vec<PTRef> getNestedBoolRoots(PTRef tr) const override { return hasUFs() ? Logic::getNestedBoolRoots(tr) : vec<PTRef>(); }
 
 protected:
     friend class LessThan_deepPTRef;
